@@ -90,7 +90,9 @@ InstAccepted(passes, end, use, hops) ==
     ELSE end \in {"free", "lit", "const"}                  \* plain use (a guard): only a non-computable argument is rejected
 (* dim: how the parameter enters the array declaration: as its size `int a[h]`, as the upper or the lower bound of an index type
    `int a[int[0,h]]`, `int a[int[h,5]]` *)
-InstCases == {[passes |-> n, end |-> e, use |-> u, hops |-> h, dim |-> d, accepted |-> InstAccepted(n, e, u, h)] :
-                n \in 0..2, e \in InstEnds, u \in {"arrsize", "guard"}, h \in 0..3, d \in {"size", "upper", "lower"}}
+(* lead: the number of ordinary parameters declared BEFORE the one that sizes the array (the instantiations bind them to constants):
+   the propagation of `restricted` through instantiation_end walks the parameter list *)
+InstCases == {[passes |-> n, end |-> e, use |-> u, hops |-> h, dim |-> d, lead |-> l, accepted |-> InstAccepted(n, e, u, h)] :
+                n \in 0..2, e \in InstEnds, u \in {"arrsize", "guard"}, h \in 0..3, d \in {"size", "upper", "lower"}, l \in 0..1}
 EmitInst == PrintT(<<"EMIT", ToJson([inst |-> InstCases])>>)
 =============================================================================
